@@ -230,3 +230,32 @@ class Family:
     def shrink(self, case):
         """Candidate smaller cases (default: none)."""
         return []
+
+
+# ----------------------------------------------------------------------------------------
+# every spelling of "unit variates from NumPy's global stream" goes through one stand-in
+# ----------------------------------------------------------------------------------------
+import contextlib as _contextlib
+
+UNIT_SPELLINGS = ("random_sample", "random", "ranf", "sample", "rand")
+
+
+@_contextlib.contextmanager
+def unit_spellings(uniform_standin):
+    """While active, np.random.random_sample / random / ranf / sample / rand are routed through
+    `uniform_standin(0.0, 1.0, size)`, the harness's stand-in for np.random.uniform (recording, scripted or
+    spying).  The properties speak of "uniform on [0,1)", "reproducibly under the global seed", "the random draws";
+    none of them says WHICH function of the legacy global stream is called, and uniform(0, 1, size) takes exactly
+    the doubles of the stream that the other spellings take - so a harmless switch between them (harmless/C20z)
+    must look the same to every check, while a switch to a private generator is still seen (nothing recorded)."""
+    saved = {n: getattr(np.random, n) for n in UNIT_SPELLINGS if hasattr(np.random, n)}
+    for n in saved:
+        if n == "rand":
+            setattr(np.random, n, (lambda *dims, _u=uniform_standin: _u(0.0, 1.0, (dims if dims else None))))
+        else:
+            setattr(np.random, n, (lambda size=None, _u=uniform_standin: _u(0.0, 1.0, size)))
+    try:
+        yield
+    finally:
+        for n, f in saved.items():
+            setattr(np.random, n, f)
